@@ -53,7 +53,7 @@ def apply_patch(wt, seed_dir):
 
 
 def worker(idx, seeds, results):
-    vdir = Path(f"/work/sr-{idx}")
+    vdir = Path(f"/work/sr-{os.getpid()}-{idx}")
     sh(f"git -C {V} worktree remove --force {vdir}")
     rc, out = sh(f"git -C {V} worktree add -q --detach {vdir} HEAD")
     if rc != 0:
